@@ -475,11 +475,50 @@ PKGS = [None, "p", "p.q", "r", "p.q.s", "r.p"]
 FIELD_SHAPES = ["f%d", "foo_bar%d", "fooBaz%d", "x_%d", "a%d_b", "Zed%d", "long_field_name_%d", "v%dy"]
 
 
+# identifier shapes for the name-derived parts of a descriptor (json_name, synthetic oneof names, map entry names,
+# group field names): every shape carries the running number, so names stay unique
+FIELD_SHAPES_ID = FIELD_SHAPES + ["_f%d", "__f%d", "___f%d", "f%d_", "f%d__", "_f%d_", "a__b%d", "a_%d__c", "_F%d", "__F%d", "X_f%d", "X__f%d",
+                                  "XX_f%d", "X%d", "_X%d", "f_%dX", "F%d_9x", "a_B%d", "aB_%d_C", "f%d_9_"]
+ONEOF_SHAPES_ID = ["oo", "_oo", "__o", "X_oo", "Oo_", "o__o", "XX_o", "_X_o"]
+GROUP_SHAPES_ID = ["G", "Grp_", "GX", "G_x_", "G__", "GRP9_", "X_g", "Xg__y", "G_9_"]
+
+
+def synth_chain(name, n):
+    """the candidates protoc tries for the synthetic oneof of a proto3-optional field: _f (f itself when it starts
+    with an underscore), then X_f, XX_f, ..."""
+    c = name if name.startswith("_") else "_" + name
+    return ["X" * k + c for k in range(n)]
+
+
+def body_names(body):
+    """every name a message body declares in the scope of the message (fields, oneofs and their members, nested types,
+    group types and fields, map entries, enums and their values)"""
+    out = set()
+    for e in body:
+        k = e["k"]
+        if k in ("field", "map", "message", "enum", "oneof", "group"):
+            out.add(e["name"])
+        if k == "group":
+            out.add(e["name"].lower())
+        if k == "map":
+            out.add("".join(w[:1].upper() + w[1:] for w in e["name"].split("_")) + "Entry")
+        if k == "enum":
+            out.update(v["name"] for v in e["elems"] if v["k"] == "value")
+        if k in ("oneof", "extend"):
+            out |= body_names(e["elems"])
+    return out
+
+
 class Gen:
     """Builds a valid program and records the sites the mutators work on."""
 
-    def __init__(self, rng, small=False, extended=False):
+    def __init__(self, rng, small=False, extended=False, idshapes=False):
         self.rng = rng
+        # idshapes: field / oneof / group names of every identifier shape (leading, trailing and doubled underscores,
+        # digits and capitals after an underscore, names that look like X-prefixed synthetic oneof candidates) and, in
+        # proto3 messages, declared names sitting on the candidate chain of a proto3-optional field.  Off by default:
+        # with the switch off not one extra draw is made from the random stream.
+        self.idshapes = idshapes
         self.small = small         # quick tier: fewer elements per message, nesting depth 2
         # extended: also extension declarations on adjacent ranges, a stand-in descriptor.proto and custom-option
         # extensions nested in messages.  Off by default: other checks (C27) use this generator with the basic
@@ -592,7 +631,7 @@ class Gen:
         r = self.rng
         for _ in range(20):
             self.n += 1
-            nm = r.choice(FIELD_SHAPES) % self.n
+            nm = r.choice(FIELD_SHAPES_ID if self.idshapes else FIELD_SHAPES) % self.n
             j = json_name(nm)
             if j not in used_json:
                 used_json.add(j)
@@ -698,7 +737,7 @@ class Gen:
                 els = [mk_field(True) for _ in range(r.range(1, 3))]
                 if syntax == "proto2" and depth < maxdepth and r.chance(1, 4):
                     els.append(self.gen_group(fi, fqn, syntax, depth, "", fresh_num, used_json))
-                body.append({"k": "oneof", "name": self.uniq("oo"), "elems": els})
+                body.append({"k": "oneof", "name": self.uniq(r.choice(ONEOF_SHAPES_ID) if self.idshapes else "oo"), "elems": els})
             elif k < 15 and syntax == "proto2" and depth < maxdepth:
                 body.append(self.gen_group(fi, fqn, syntax, depth, r.choice(["optional", "repeated", "required"]), fresh_num, used_json))
             elif k < 17 and depth < maxdepth:
@@ -707,6 +746,8 @@ class Gen:
                 body.append(self.gen_enum(fi, fqn, syntax))
             else:
                 body.append(mk_field())
+        if self.idshapes and syntax == "proto3":
+            self.synth_blockers(body, used_json, fresh_num)
         if rsv:
             body.insert(r.below(len(body) + 1), {"k": "reserved", "ranges": r.shuffle(rsv)})
         if ext:
@@ -724,6 +765,37 @@ class Gen:
             if ex:
                 body.append(ex)
         return {"k": "message", "name": name, "body": body}
+
+    def synth_blockers(self, body, used_json, fresh_num):
+        """proto3: declared names on the candidate chain (_f, X_f, XX_f, ...) of proto3-optional fields of this
+        message: real oneofs, plain fields and further proto3-optional fields, before or after the field"""
+        r = self.rng
+        taken = body_names(body)
+        opts = [e for e in body if e["k"] == "field" and e["label"] == "optional"]
+        for f in r.shuffle(opts)[:2]:
+            if not r.chance(2, 3):
+                continue
+            chain = synth_chain(f["name"], 4)
+            for nm in chain[:r.range(1, 3)]:
+                if nm in taken:
+                    continue
+                kind = r.below(4)
+                j = json_name(nm)
+                if kind >= 2 and j in used_json:
+                    kind = 0
+                taken.add(nm)
+                if kind < 2:
+                    self.n += 1
+                    q = "q%d" % self.n
+                    used_json.add(q)
+                    taken.add(q)
+                    el = {"k": "oneof", "name": nm, "elems": [{"k": "field", "label": "", "type": r.choice(SCALARS), "name": q,
+                                                             "num": fresh_num(), "opts": []}]}
+                else:
+                    used_json.add(j)
+                    el = {"k": "field", "label": "optional" if kind == 3 else r.choice(["", "repeated"]), "type": r.choice(SCALARS),
+                          "name": nm, "num": fresh_num(), "opts": []}
+                body.insert(r.below(len(body) + 1), el)
 
     def gen_declared_ranges(self, fi, fqn, syntax, trec, body, cuts):
         """two to three ADJACENT extension ranges (600..), each with or without declarations, and a nested extend
@@ -792,7 +864,7 @@ class Gen:
 
     def gen_group(self, fi, parent_fqn, syntax, depth, lbl, fresh_num, used_json):
         r = self.rng
-        name = self.uniq(r.choice(["G", "Grp_", "GX"]))
+        name = self.uniq(r.choice(GROUP_SHAPES_ID if self.idshapes else ["G", "Grp_", "GX"]))
         fqn = parent_fqn + "." + name
         used_json.add(json_name(name.lower()))
         self.types.append({"fqn": fqn, "kind": "message", "file": fi, "syntax": syntax, "extr": []})
@@ -1918,6 +1990,93 @@ def _corpus():
 CORPUS = _corpus()
 
 
+# ---------------------------------------------------------------- identifier shapes, enumerated
+SHAPE_ALPHA = "aZ_9"
+SHAPE_WIDE = "abxyzABXYZ_0129"
+# names that look like the X-prefixed candidates of GenerateSyntheticOneofs themselves
+SHAPE_EXTRA = ["X", "X_", "_X", "X_a", "XX_a", "X__a", "__X", "_X_a", "x_a", "Xa", "_Xa", "X_X_a", "a_X", "aX_"]
+
+
+def shape_ids(rng, maxlen, nrandom):
+    """identifiers: every one of length <= maxlen over {a,Z,_,9}, the X-prefixed look-alikes, and random longer ones
+    (underscore-rich) over a wider alphabet"""
+    import itertools
+    ids = []
+    for n in range(1, maxlen + 1):
+        for t in itertools.product(SHAPE_ALPHA, repeat=n):
+            if t[0] != "9":
+                ids.append("".join(t))
+    ids += SHAPE_EXTRA
+    for _ in range(nrandom):
+        n = rng.range(maxlen + 1, maxlen + 8)
+        t = "".join("_" if rng.chance(1, 3) else rng.choice(SHAPE_WIDE) for _ in range(n))
+        if t[0] in "0129":
+            t = rng.choice(["_", "__", "a", "Z"]) + t
+        ids.append(t)
+    seen, out = set(), []
+    for i in ids:
+        if i not in seen:
+            seen.add(i)
+            out.append(i)
+    return out
+
+
+def _camel(s, cap):
+    out = []
+    for ch in s:
+        if ch == "_":
+            cap = True
+        elif cap:
+            out.append(ch.upper() if "a" <= ch <= "z" else ch)
+            cap = False
+        else:
+            out.append(ch)
+    return "".join(out)
+
+
+def shape_sets(ids):
+    """[(label, {path: text})]: for every identifier small file sets that put it wherever a descriptor entry is derived
+    from a name.  proto3: proto3-optional fields (synthetic oneof name: alone, with the first / first two free
+    candidates of its chain taken by a real oneof or a plain field, declared before or after, inside a nested message,
+    and together with the one other field name whose chain meets its own, in both orders), oneof members, map fields;
+    proto2: fields, extensions (nested and at file level), map fields, groups (as field, oneof member, extension;
+    identifiers that start with a capital); editions: fields and map fields.  What may be rejected for a reason of its
+    own (JSON conflict of the pair) sits in a file set of its own, so it cannot hide the rest."""
+    out = []
+    for i in ids:
+        chain = synth_chain(i, 5)
+        free = [x for x in chain if x != i]
+        b1, b2 = free[0], free[1]
+        partner = i[1:] if i.startswith("_") and len(i) > 1 and i[1] not in "0123456789" else "_" + i
+        entry_ok = _camel(i, True)[:1] not in tuple("0123456789")       # a map entry type is an identifier as well
+        mp3 = ("message M6 { map<string, int32> %s = 1; }\n" % i) if entry_ok else ""
+        out.append(("shape-p3:" + i, {"t.proto": P3 + "package sh;\n"
+                    "message M1 { optional int32 %s = 1; }\n"
+                    "message M2 { optional int32 %s = 1; oneof %s { int32 q = 2; } }\n"
+                    "message M3 { oneof %s { int32 q = 2; } message N { optional bytes %s = 7; int32 z = 1; } optional N %s = 1; int32 %s = 3; }\n"
+                    "message M4 { int32 k = 9; oneof real { int32 %s = 1; string r2 = 4; } optional int32 after = 2; }\n"
+                    "message M5 { optional int32 first = 1; repeated int32 %s = 2; optional int32 last = 3; }\n"
+                    % (i, i, b1, b1, i, i, b2, i, i) + mp3}))
+        out.append(("shape-p3-pair:" + i, {"t.proto": P3 +
+                    "message M1 { optional string %s = 1; optional int32 %s = 2; }\n"
+                    "message M2 { optional int32 %s = 2; int32 k = 3; optional string %s = 1; }\n" % (i, partner, partner, i)}))
+        grp = ""
+        if "A" <= i[0] <= "Z":
+            grp = ("message M5 { optional group %s = 1 { optional int32 %s = 1; } }\n"
+                   "message M6 { oneof o { group %s = 2 { } int32 k = 3; } }\n"
+                   "message M7 { extend M1 { repeated group %s = 103 { } } }\n" % (i, i, i, i))
+        mp2 = ("message M4 { map<int32, M1> %s = 1; }\n" % i) if entry_ok else ""
+        out.append(("shape-p2:" + i, {"t.proto": P2 + "package sh.p2;\n"
+                    "message M1 { optional int32 %s = 1; extensions 100 to 199; }\n"
+                    "message M2 { repeated string k = 1; oneof o { bytes %s = 2; } required M1 %s = 3; }\n"
+                    "message M3 { extend M1 { optional int32 %s = 100; } }\n"
+                    "extend M1 { repeated M1 %s = 101; }\n" % (i, i, "r9_" + i, i, i) + mp2 + grp}))
+        mpe = ("message M2 { map<string, M1> %s = 1; }\n" % i) if entry_ok else ""
+        out.append(("shape-ed:" + i, {"t.proto": ED +
+                    "message M1 { int32 %s = 1; repeated M1 %s = 2; }\n" % (i, "x9" + i) + mpe}))
+    return out
+
+
 def topo_order(asts):
     """imports before importers (stable); files importing something outside the set keep their place"""
     by = {f["name"]: f for f in asts}
@@ -1994,11 +2153,11 @@ def c02_terms(files, out):
     return "C02Case %s %s" % (fs, obs), "SpecDesc %s %s" % (fs, obs)
 
 
-def gen_cases(rng, nprog, nmut, small=False, extended=False):
+def gen_cases(rng, nprog, nmut, small=False, extended=False, idshapes=False):
     """[(label, asts)] : valid programs and single-rule mutants of them"""
     progs = []
     for _ in range(nprog):
-        g = Gen(rng, small, extended)
+        g = Gen(rng, small, extended, idshapes)
         files = g.program()
         progs.append(("valid", files))
         mu = Mutator(rng)
